@@ -17,6 +17,7 @@ ASSUMPTIONS = ['comparison of durations is chrono TimeDelta Ord (exact nanosecon
 DUR = 'cel_interpreter::duration::'
 VALUE = 'cel_interpreter::objects::Value'
 CHRONO_OP = re.compile(r'^<(&?chrono::[\w:]+)(<.*>)? as std::ops::(Add|Sub|Mul|Div|AddAssign|SubAssign)>::')
+ALIASES = {'\u00b5s': ('Microsecond', 10 ** 3), '\u03bcs': ('Microsecond', 10 ** 3)}
 UNITS = {'ms': ('Millisecond', 10 ** 6), 'us': ('Microsecond', 10 ** 3), 'ns': ('Nanosecond', 1), 'h': ('Hour', 3600 * 10 ** 9), 'm': ('Minute', 60 * 10 ** 9), 's': ('Second', 10 ** 9)}
 
 
@@ -57,6 +58,19 @@ def safe_wide_mul(b, t):
     return rv['k'] == 'Cast' and rv['kind'] == 'IntToInt' and rv['to'] in ('i128', 'u128') and rv['from'] in ('i64', 'u64', 'i32', 'u32')
 
 
+def int_range(t):
+    m = re.match(r'^([iu])(\d+|size)$', t)
+    if not m:
+        return None
+    w = 64 if m.group(2) == 'size' else int(m.group(2))
+    return (-(1 << (w - 1)), (1 << (w - 1)) - 1) if m.group(1) == 'i' else (0, (1 << w) - 1)
+
+
+def lossy_int_cast(fr, to):
+    a, b = int_range(fr), int_range(to)
+    return bool(a and b) and not (b[0] <= a[0] and a[1] <= b[1])
+
+
 def run(fx, rep):
     if 'chrono' not in fx.features('cel_interpreter'):
         rep.note('feature chrono disabled: durations do not exist in this configuration')
@@ -67,6 +81,10 @@ def run(fx, rep):
     rep.rule('R4', 'printer: no sign-losing cast, no overflowing multiplication')
     rep.rule('R5', 'unit table and longest-match order')
     rep.rule('R6', 'float->int cast of a parsed term is guarded')
+    rep.rule('R7', 'every unit suffix the printer emits is accepted by the parser')
+    rep.rule('R8', 'a term is converted to nanoseconds in exact integer arithmetic (no binary floats)')
+    rep.rule('R10', 'the sign is applied to a magnitude summed in a type that holds 2^63 ns (chrono TimeDelta), so string(MIN) parses back')
+    rep.rule('R9', 'the power-of-ten divisor of the fraction is the length of the digit string that is parsed')
     # ---------------- R1
     wrappers = [b for b in fx.bodies.values() if b.crate == 'cel_interpreter' and b.raw['kind'] != 'Promoted' and not b.path.startswith(DUR)
                 and any(F.norm_callee(t) == DUR + 'parse_duration' for _, t in b.calls())]
@@ -131,8 +149,8 @@ def run(fx, rep):
             if CHRONO_OP.match(rc) and not instant_difference(t):
                 rep.violation('R3', 'panicking-op/%s/%s' % (F.norm_path(b.path).split('::')[-1] if '{closure' not in b.path else F.norm_path(b.path).split('::')[-2], opkey(t)), F.loc_of(t['span']),
                               'chrono operator %s panics on overflow; use the checked_* form and report an error' % rc)
-    rep.check(digit and parse_f64, 'R2', 'decimal-recogniser', 'interpreter/src/duration.rs', 'digits recognised by nom digit1, converted by str::parse::<f64>',
-              'no decimal digit recogniser (digit1 + str::parse::<f64>) found in duration.rs')
+    rep.check(digit, 'R2', 'decimal-recogniser', 'interpreter/src/duration.rs', 'digits recognised by nom digit1',
+              'no decimal digit recogniser (nom digit1) found in duration.rs')
     # operator impls of Value
     for tr in ('std::ops::Add', 'std::ops::Sub'):
         b = find_impl_body(fx, tr, VALUE)
@@ -201,16 +219,133 @@ def run(fx, rep):
     for text, (variant, n) in UNITS.items():
         rep.check(got.get(text) == (variant, n), 'R5', 'unit/%s' % text, pu.loc(), '%s -> %s = %d ns' % (text, variant, n), 'unit %r maps to %s, expected %s = %d ns' % (text, got.get(text), variant, n))
     texts = [t for t, _ in order]
-    two = [i for i, t in enumerate(texts) if t and len(t) == 2]
-    one = [i for i, t in enumerate(texts) if t in ('m', 's')]
-    rep.check(bool(two) and bool(one) and max(two) < min(one) and set(texts) == set(UNITS), 'R5', 'longest-match-order', pu.loc(), 'alternatives tried in order %s' % texts,
-              'unit alternatives %s: ms/us/ns must be tried before m/s and the set must be exactly h m s ms us ns' % texts)
+    shadowed = [(texts[i], texts[j]) for i in range(len(texts)) for j in range(i + 1, len(texts)) if texts[i] and texts[j] and texts[j].startswith(texts[i])]
+    extra = [t for t in texts if t not in UNITS and t not in ALIASES]
+    rep.check(bool(texts) and not shadowed and not extra and None not in texts, 'R5', 'longest-match-order', pu.loc(), 'alternatives tried in order %s' % texts,
+              'unit alternatives %s: %s' % (texts, '; '.join(['%r is tried before %r and shadows it' % p for p in shadowed] + ['%r is not a CEL duration unit' % t for t in extra]) or 'not recognised'))
+    for t in texts:
+        if t in ALIASES:
+            variant, n = ALIASES[t]
+            rep.check(got.get(t) == (variant, n), 'R5', 'unit/%s' % t, pu.loc(), '%s -> %s = %d ns' % (t, variant, n), 'unit %r maps to %s, expected %s = %d ns' % (t, got.get(t), variant, n))
+    # ---------------- R7: bytes the printer stores into its buffer
+    nonascii = []
+    for b in fx.bodies_with_closures(fb.path):
+        for bi, j, st in b.stmts():
+            if st['k'] == 'Assign' and st['rv']['k'] == 'Use' and st['rv']['op']['k'] == 'Const' and any(pr.get('k') == 'Index' for pr in st['place'].get('p', [])):
+                v = st['rv']['op'].get('val')
+                if isinstance(v, int) and v >= 0x80 and st['rv']['op'].get('ty') == 'u8':
+                    nonascii.append((bi, j, v, F.loc_of(st['span'])))
+    if nonascii:
+        seq = bytes(v for _, _, v, _ in sorted(nonascii))
+        dec = None
+        for cand in (seq[::-1], seq):
+            try:
+                dec = cand.decode('utf-8')
+                break
+            except UnicodeDecodeError:
+                pass
+        if dec is None:
+            rep.violation('R7', 'printer-non-utf8', nonascii[0][3], 'the printer stores the bytes %s, which are not UTF-8 in either order' % seq.hex())
+        else:
+            for ch in dec:
+                t = ch + 's'
+                rep.check(got.get(t) == ('Microsecond', 1000), 'R7', 'printed-unit-parsed/U+%04X' % ord(ch), nonascii[0][3], 'printer emits %r; parse_unit accepts %r as Microsecond' % (t, t),
+                          'format_duration prints the unit %r but parse_unit has no such alternative (%s): duration(string(duration(\'1500ns\'))) is an error' % (t, got.get(t)))
+    else:
+        rep.note('R7: the printer stores no non-ASCII byte; its ASCII units are covered by R5')
     # ---------------- R6
     n = 0
     for b in dbodies:
         if F.norm_path(b.path).startswith(DUR + 'format_'):
             continue
         n += check_float_to_int_casts(b, rep, 'R6')
+    # ---------------- R8
+    n8 = 0
+    for b in dbodies:
+        fn = F.norm_path(b.path)
+        if fn.startswith(DUR + 'format_'):
+            continue
+        n8 += 1
+        short = re.sub(r'::\{closure#\d+\}', '/closure', fn[len(DUR):])
+        fl = sorted({d['ty'] for d in b.locals if re.search(r'\bf(32|64)\b', d['ty'])})
+        rep.check(not fl, 'R8', 'integer-only/%s' % short, b.loc(), 'no float-typed value',
+                  '%s holds a binary float (%s): 8.2 and 1.005 have no exact f64, so duration(\'8.2s\') != duration(\'8200ms\')' % (fn, ', '.join(fl)[:160]))
+        for bi, j, st in b.stmts():
+            if st['k'] == 'Assign' and st['rv']['k'] == 'Cast' and st['rv']['kind'] == 'IntToInt' and st['rv']['op']['k'] != 'Const':
+                fr, to = st['rv']['from'], st['rv']['to']
+                if lossy_int_cast(fr, to):
+                    rep.violation('R8', 'lossy-int-cast/%s/%s->%s' % (short, fr, to), F.loc_of(st['span']),
+                                  '`as %s` on a %s in the term conversion wraps instead of reporting an out-of-range duration (use try_from)' % (to, fr))
+    # ---------------- R9
+    td = [b for b in dbodies if not F.norm_path(b.path).startswith(DUR + 'format_')]
+    npow = 0
+    for b in td:
+        pv = F.Prov(b)
+        calls = dict(b.calls())
+        for bi, t in b.calls():
+            if not re.match(r'^core::num::<impl [iu]\d+>::(checked_|wrapping_|saturating_)?pow$', F.norm_callee(t) or ''):
+                continue
+            base = pv.of_operand(t['args'][0])
+            if not any(x == ('const', 10) for x in base):
+                continue
+            npow += 1
+            exps = pv.of_operand(t['args'][1])
+            def outer_len(term):
+                # strip conversions around str::len
+                while True:
+                    if term[0] == 'call' and term[1] == 'core::str::<impl str>::len':
+                        return term[2][0]
+                    if term[0] == 'call' and len(term[2]) == 1:
+                        term = term[2][0]
+                    elif term[0] == 'cast':
+                        term = term[-1] if isinstance(term[-1], tuple) else term[1]
+                    else:
+                        return None
+            lens = {outer_len(e) for e in exps}
+            if None in lens:
+                lens = set()
+            # numerators divided by this power
+            nums = set()
+            for bj, t2 in b.calls():
+                if re.match(r'^core::num::<impl [iu]\d+>::(checked_)?div(_euclid)?$', F.norm_callee(t2) or '') and \
+                   any(x[0] == 'call' and x[3] == bi for x in pv.of_operand(t2['args'][1])):
+                    for x in pv.of_operand(t2['args'][0]):
+                        F.term_contains(x, lambda y: nums.add(y[2][0]) if y[0] == 'call' and y[1] == 'core::str::<impl str>::parse' else False)
+            for bj, j, st in b.stmts():
+                if st['k'] == 'Assign' and st['rv']['k'] == 'BinaryOp' and st['rv']['op'] in ('Div',):
+                    if any(x[0] == 'call' and x[3] == bi for x in pv.of_operand(st['rv']['r'])):
+                        for x in pv.of_operand(st['rv']['l']):
+                            F.term_contains(x, lambda y: nums.add(y[2][0]) if y[0] == 'call' and y[1] == 'core::str::<impl str>::parse' else False)
+            def prefix_of_param(term):
+                if term[0] == 'param':
+                    return True
+                return term[0] == 'call' and term[1] in ('core::str::<impl str>::get', 'core::str::traits::<impl std::ops::Index<I> for str>::index', 'std::ops::Index::index') and term[2][0][0] == 'param' and \
+                    any(term[2][1][0] == 'agg' and term[2][1][1].startswith(k) for k in ('std::ops::RangeTo', 'std::ops::RangeToInclusive'))
+            good = bool(lens) and bool(nums) and lens == nums and all(prefix_of_param(x) for x in lens)
+            rep.check(good, 'R9', 'scale-agreement/%s' % F.norm_path(b.path)[len(DUR):], F.loc_of(t['span']), '10^len(D) divides parse(D)*unit for the same prefix D of the fraction digits',
+                      'the fraction is scaled by 10^len(%s) but the digits parsed are %s: both must be the same untrimmed prefix of the fraction text (else 1.05s == 1.5s or 1.50s == 1.05s)' % (sorted(map(str, lens))[:2], sorted(map(str, nums))[:2]))
+    if not npow:
+        rep.note('R9: no power-of-ten scale in the term conversion; rule not applicable to this shape')
+    # ---------------- R10
+    n10 = 0
+    for b in fx.bodies_with_closures(DUR + 'parse_duration'):
+        pv = F.Prov(b)
+        for bi, t in b.calls():
+            if F.norm_callee(t) == 'std::ops::Neg::neg' or re.match(r'^core::num::<impl i\d+>::(checked_|wrapping_|overflowing_)?neg$', F.norm_callee(t) or ''):
+                ty = t['arg_tys'][0]
+                n10 += 1
+                rebuilt = [x for x in pv.of_operand(t['args'][0]) if F.term_contains(x, lambda y: y[0] == 'call' and re.match(r'^chrono::TimeDelta::(try_)?(nanoseconds|microseconds|milliseconds|seconds|minutes|hours|days|weeks|new)$', y[1] or ''))]
+                narrow = ty in ('i64', 'i32', 'isize')
+                rep.check(not rebuilt and not narrow, 'R10', 'sign-after-wide-sum/%s' % short_ty(ty), F.loc_of(t['span']), 'the negated magnitude is the checked TimeDelta sum of the terms',
+                          'the magnitude that is negated %s: 2^63 ns does not fit, so the canonical string of the most negative duration (-2562047h47m16.854775808s) is rejected' %
+                          ('is an %s' % ty if narrow else 'was rebuilt from a 64-bit count'))
+        for bi, j, st in b.stmts():
+            if st['k'] == 'Assign' and st['rv']['k'] == 'UnaryOp' and st['rv']['op'] == 'Neg':
+                lt = b.locals[st['place']['l']]['ty'] if not st['place'].get('p') else ''
+                if lt in ('i64', 'i32', 'isize'):
+                    n10 += 1
+                    rep.violation('R10', 'sign-after-wide-sum/%s' % lt, F.loc_of(st['span']), 'the magnitude is negated as an %s: 2^63 ns does not fit, so the most negative duration cannot be parsed back' % lt)
+    rep.check(n10 >= 1, 'R10', 'negation-found', 'interpreter/src/duration.rs', 'parse_duration applies the sign by a negation', 'no negation found in parse_duration (anchor lost): how is the sign applied?')
     rep.floor('R5', 7)
-    rep.floor('R6', 1)
+    rep.floor('R8', 3)
     rep.floor('R3', 5)
